@@ -118,6 +118,14 @@ def entries():
                kf={"F13": "vb == vb"}, hunt=True))
     L.append(e("dict.onlyrelaxed", "pa: bool, va: int, qa: bool, qx: bool, wa: int", '("dict", [], True)',
                "mkdict(('a', pa, va))", "mkdict(('a', qa, wa), ('x', qx, 0))", covers=("subst",)))
+    # schema.dict({}): a dict that must be empty (keys == {} is not "no keys declared")
+    L.append(e("dict.empty.strict", "pa: bool, va: int, qa: bool, wa: int", '("dict", [], False)',
+               "mkdict(('a', pa, va))", "mkdict(('a', qa, wa))"))
+    L.append(e("dict.empty.strict.nested", "i: int, pa: bool, va: int, qa: bool, wa: int",
+               'pick((("dict", [("o", True, ("dict", [], False))], False), ("list_t", ("dict", [], False), NOLEN), '
+               '("any", [("dict", [], False), ("none",)])), i)',
+               "pick(({'o': mkdict(('a', pa, va))}, [mkdict(('a', pa, va))], mkdict(('a', pa, va))), i)",
+               "pick(({'o': mkdict(('a', qa, wa))}, [mkdict(('a', qa, wa))], mkdict(('a', qa, wa))), i)", pre=["0 <= i <= 2"], timeout=150))
     L.append(e("dict.zoo", "i: int, w: int", '("dict", None)', "{'a': pick(ZOO_UNCONVERTIBLE, i)}", "{'a': w}", covers=("raised",)))
     L.append(e("dict.in.list", "a: int, n: int, pa: bool, pb: bool, va: int, m: int, qa: bool, wa: int",
                '("list_t", ("dict", [("a", False, %s), ("b", True, ("none",))], False), NOLEN)' % INT_A,
